@@ -219,7 +219,7 @@ def run(plan: dict[str, Any]):
         con = bytes((W.L_DATA_CON,)) + cemi[1:]
         loop.after(cfg["con_lat"], lambda: sender.push(ch.cid, con, {"kind": "con"}), label="bus_con")
 
-    gw = SimGateway(net, script=dict(plan.get("gw") or {}), bus=bus)
+    gw = SimGateway(net, script=dict(plan.get("gw") or {}, expire_channels_after=120.0), bus=bus)
     sender = ReliableSender(R, gw)
     obs["sender"] = sender
 
@@ -327,7 +327,7 @@ def run(plan: dict[str, Any]):
         await asyncio.sleep(cfg["horizon"] + 0.5)
         # ---- faults stop
         gw.restart()
-        gw.script = {}
+        gw.script = {"expire_channels_after": 120.0}
         R.faults.active = False
         obs["faults_stopped_at"] = loop.time()
         obs["faults_stopped_n"] = R.record("faults_stop", "harness", "")
